@@ -18,7 +18,7 @@ claim('C04', 'property-based testing: generated conditional-compilation programs
       'Trusts the reference model (harness/src/ppm/model.rs) and the harness lexer; white-space differences are not judged.',
       'DESIGN.md 6 C04, 4.4')
 claim('C05', 'property-based testing: generated define/usage programs incl. single injected misuse vs. reference preprocessor (token-for-token output, error payload, define table)',
-      'Exploration: ~160 000 (quick) / 1.9 M (thorough) generated programs covering formals/defaults/empty and omitted actuals/nested brackets/strings/pasting/stringification/continuations/nested usages/redefinition; expected DefineNotFound / DefineArgNotFound / DefineNoArgs payloads are checked by injecting exactly one fault. Formals may be spelled like directives or hold a dollar sign; macros may be defined by the expansion of another macro. Known findings K8-K12 (macro-text scanner / argument grammar corners) are excluded by construction and replayed as witnesses.',
+      'Exploration: ~160 000 (quick) / 1.9 M (thorough) generated programs covering formals/defaults/empty and omitted actuals/nested brackets/strings/pasting/stringification/continuations/nested usages/redefinition; expected DefineNotFound / DefineArgNotFound / DefineNoArgs payloads are checked by injecting exactly one fault. Formals may be spelled like directives or hold a dollar sign; macros may be defined by the expansion of another macro. A templated campaign puts block and one-line comments into actuals of a macro whose body goes on behind the formals and compares the code tokens with an explicit expected sequence. Known findings K8-K12 (macro-text scanner / argument grammar corners) are excluded by construction and replayed as witnesses.',
       'Trusts the reference model and lexer; constructs whose meaning the standard leaves open (more actuals than formals, usages inside `"…`") are not generated.',
       'DESIGN.md 6 C05, 4.4')
 claim('C09', 'fault/shape enumeration + random mixtures in isolated child processes: every cycle length and chain depth, oracle on the error structure / expanded tokens',
